@@ -426,7 +426,7 @@ pub fn run(tier: Tier) -> i32 {
     let coll = Collector::new();
     let (states, transitions, per, samples, complete) = run_bfs_all(tier, &budget, &coll, false);
     // second half: dedup on/off equivalence over compiled programs
-    let (jobs, plan) = c01::family_jobs(tier, &["E-small", "S", "P"]);
+    let (jobs, plan) = c01::family_jobs(tier, &["E-small", "S", "P", "L"]);
     let fr = c01::run_jobs(jobs, c01::attribution_for, &budget, plan);
     for v in fr.coll.violations.lock().unwrap().iter() {
         coll.push(v.clone());
